@@ -12,6 +12,8 @@
 //	              listing the revoked table / before reading the stored list / before storing) by the db.AuthDB
 //	              wrapper while generate-on-revoke revocations run; afterwards every acknowledged revocation must
 //	              be in the served list and the served list must carry the largest stored number
+//	-stage reload what ca.Reload does (new authority on the same db handle, CloseForReload on the old one): no list with the
+//	              old cache duration may be stored afterwards, numbers keep increasing
 //	-stage race   concurrent revocations, forced regenerations and fetches; stored numbers strictly
 //	              increasing, every fetched list well-formed and signed, an acknowledged revocation visible
 package main
@@ -25,8 +27,11 @@ import (
 	"crypto/x509/pkix"
 	"encoding/hex"
 	"encoding/json"
+	"errors"
 	"flag"
 	"fmt"
+	"io"
+	"log"
 	"math/big"
 	"os"
 	"sort"
@@ -57,6 +62,7 @@ func must[T any](v T, err error) T {
 type Op struct {
 	Kind string // gen | rev | restart
 	Cert int    // rev: which certificate of the pool
+	Fail int    // gen, rev with generate-on-revoke: the storage call of the generation that fails (2 GetCRL, 3 GetRevokedCertificates, 4 StoreCRL); 0 = none
 }
 
 type CertSpec struct {
@@ -88,10 +94,20 @@ type Sched struct {
 	Revs int    // revocations while G1 is parked
 }
 
+// Reload: what ca.Reload does. Authority A (cache duration D1, renew period 1 s) runs on a bbolt
+// file; authority B (cache duration D2) is built with A's db handle and A's keys, then
+// A.CloseForReload(). After more than two old renew periods every list stored since the reload
+// must carry D2 and the stored numbers must strictly increase: no generator of A is left.
+type Reload struct {
+	D1, D2 int  // seconds
+	GOR    bool // generate-on-revoke on B, with one revocation after the reload
+}
+
 type Case struct {
-	Hist  *Hist  `json:",omitempty"`
-	Race  *Race  `json:",omitempty"`
-	Sched *Sched `json:",omitempty"`
+	Reload *Reload `json:",omitempty"`
+	Hist   *Hist   `json:",omitempty"`
+	Race   *Race   `json:",omitempty"`
+	Sched  *Sched  `json:",omitempty"`
 }
 
 func caseField(k *Case) string {
@@ -234,8 +250,28 @@ func (e *env) record(serial string) (revokedAt int64, exp string, ok bool) {
 	return 0, "", false
 }
 
+var errInjected = errors.New("injected storage fault")
+
 func runHist(h *Hist) (string, string) {
-	e := newEnv(h.GOR, h.Cache, nil)
+	// one-shot fault: the next call of the armed operation fails before it is performed
+	armed := ""
+	hooks := &ss.Hooks{Before: func(op, key string) error {
+		if armed != "" && op == armed {
+			armed = ""
+			return errInjected
+		}
+		return nil
+	}}
+	arm := func(f int) {
+		armed = map[int]string{2: "getcrl", 3: "listrevoked", 4: "storecrl"}[f]
+	}
+	failSuffix := func(f int) string {
+		if f == 0 {
+			return ""
+		}
+		return ":" + strconv.Itoa(f)
+	}
+	e := newEnv(h.GOR, h.Cache, hooks)
 	defer func() { e.ca.Close() }()
 	certs := make([]*x509.Certificate, len(h.Certs))
 	for i, cs := range h.Certs {
@@ -308,11 +344,13 @@ func runHist(h *Hist) (string, string) {
 		switch op.Kind {
 		case "gen":
 			ans := "ok"
+			arm(op.Fail)
 			if err := e.ca.Auth.GenerateCertificateRevocationList(); err != nil {
 				ans = "err"
 			}
+			armed = ""
 			l := observe()
-			thread(fmt.Sprintf("g:%d", l.this), ans)
+			thread(fmt.Sprintf("g:%d%s", l.this, failSuffix(op.Fail)), ans)
 		case "restart":
 			e.ca = must(e.ca.Restart())
 			evs = append(evs, "r0")
@@ -325,6 +363,11 @@ func runHist(h *Hist) (string, string) {
 			crt := certs[op.Cert]
 			serial := crt.SerialNumber.String()
 			_, _, before := e.record(serial)
+			fail := 0
+			if h.GOR {
+				fail = op.Fail
+			}
+			arm(fail)
 			var code int
 			if h.Certs[op.Cert].Kind == "carried" {
 				code = e.revokeCarried(crt)
@@ -337,7 +380,10 @@ func runHist(h *Hist) (string, string) {
 				ans = "ok"
 			case 400:
 				ans = "already"
+			case 500:
+				ans = "err" // the record is stored, the regeneration failed
 			}
+			armed = ""
 			at, exp, ok := e.record(serial)
 			l := observe()
 			if !ok {
@@ -351,7 +397,7 @@ func runHist(h *Hist) (string, string) {
 				ans += "+VIOLATION=record-expiry-" + exp + "-differs-from-certificate-" + wantExp[serial]
 			}
 			// the model's record carries the certificate's expiry (independent of what the code stored)
-			thread(fmt.Sprintf("r:%s:%d:%s:%s:%d", c.X(serial), at, wantExp[serial], c.B(h.GOR), l.this), ans)
+			thread(fmt.Sprintf("r:%s:%d:%s:%s:%d%s", c.X(serial), at, wantExp[serial], c.B(h.GOR), l.this, failSuffix(fail)), ans)
 		}
 	}
 	in := fmt.Sprintf("h cache=%d reqs=%s evs=%s", h.Cache, strings.Join(reqs, ";"), c.List(evs))
@@ -367,7 +413,7 @@ func runRace(rc *Race) (string, string, string) {
 	var stored []int64
 	hooks := &ss.Hooks{After: func(op, key string, ok bool, err error) error {
 		if op == "storecrl" && err == nil {
-			n, _ := strconv.ParseInt(key, 10, 64)
+			n, _ := ss.CRLKey(key)
 			mu.Lock()
 			stored = append(stored, n)
 			mu.Unlock()
@@ -523,7 +569,7 @@ func runSched(sc *Sched) (string, string, string) {
 		},
 		After: func(op, key string, ok bool, err error) error {
 			if op == "storecrl" && err == nil {
-				n, _ := strconv.ParseInt(key, 10, 64)
+				n, _ := ss.CRLKey(key)
 				mu.Lock()
 				stored = append(stored, n)
 				mu.Unlock()
@@ -624,18 +670,117 @@ func runSched(sc *Sched) (string, string, string) {
 	return in, "ok", "ok"
 }
 
+func crlCfg(cache int, gor bool) *config.CRLConfig {
+	return &config.CRLConfig{Enabled: true, GenerateOnRevoke: gor, CacheDuration: &provisioner.Duration{Duration: time.Duration(cache) * time.Second},
+		RenewPeriod: &provisioner.Duration{Duration: time.Second}}
+}
+
+func runReload(rl *Reload) (string, string, string) {
+	type st struct{ num, dur int64 }
+	var mu sync.Mutex
+	var stored []st
+	hooks := &ss.Hooks{After: func(op, key string, ok bool, err error) error {
+		if op == "storecrl" && err == nil {
+			n, d := ss.CRLKey(key)
+			mu.Lock()
+			stored = append(stored, st{n, d})
+			mu.Unlock()
+		}
+		return nil
+	}}
+	a := must(fixture.New(fixture.Opts{CRL: crlCfg(rl.D1, false), WrapDB: ss.Wrap(hooks)}))
+	defer os.RemoveAll(a.DBDir)
+	time.Sleep(1200 * time.Millisecond) // A's ticker is demonstrably running: at least one tick
+	// ca.Reload: new authority with the same database handle and keys, then CloseForReload on the old one
+	b := must(fixture.New(fixture.Opts{CRL: crlCfg(rl.D2, rl.GOR), NoDB: true, From: a,
+		Extra: []authority.Option{authority.WithDatabase(a.Auth.GetDatabase())}}))
+	a.Auth.CloseForReload()
+	mu.Lock()
+	mark := len(stored) // lists stored before this point may legitimately be A's
+	mu.Unlock()
+	eb := &env{ca: b}
+	var problems []string
+	var serial string
+	if rl.GOR {
+		crt := eb.issue()
+		serial = crt.SerialNumber.String()
+		if eb.revokeToken(serial) != 200 {
+			problems = append(problems, "revocation-refused")
+		}
+	}
+	prev := int64(-1)
+	deadline := time.Now().Add(2400 * time.Millisecond)
+	for time.Now().Before(deadline) {
+		l := eb.fetch()
+		if l.bad != "" {
+			problems = append(problems, "served-list-"+l.bad)
+			break
+		}
+		if l.num < prev {
+			problems = append(problems, "served-number-went-back")
+			break
+		}
+		prev = l.num
+		time.Sleep(40 * time.Millisecond)
+	}
+	final := eb.fetch()
+	if final.next-final.this != int64(rl.D2) {
+		problems = append(problems, fmt.Sprintf("served-interval-%d-instead-of-%d", final.next-final.this, rl.D2))
+	}
+	if rl.GOR {
+		found := false
+		for _, en := range final.entries {
+			if strings.HasPrefix(en, c.X(serial)+":") {
+				found = true
+			}
+		}
+		if !found {
+			problems = append(problems, "acknowledged-revocation-missing-from-served-list")
+		}
+	}
+	mu.Lock()
+	after := append([]st{}, stored[mark:]...)
+	all := append([]st{}, stored...)
+	mu.Unlock()
+	for _, x := range after {
+		if x.dur != int64(rl.D2) {
+			problems = append(problems, fmt.Sprintf("list-stored-after-reload-with-old-interval-%d", x.dur))
+			break
+		}
+	}
+	for i := 1; i < len(all); i++ {
+		if all[i].num <= all[i-1].num {
+			problems = append(problems, "stored-number-not-increasing")
+			break
+		}
+	}
+	if len(after) < 2 {
+		problems = append(problems, "new-generator-not-ticking")
+	}
+	b.Auth.Shutdown()
+	in := fmt.Sprintf("reload d1=%d d2=%d gor=%s", rl.D1, rl.D2, c.B(rl.GOR))
+	if len(problems) > 0 {
+		return in, "VIOLATION " + strings.Join(problems, ","), "ok"
+	}
+	return in, "ok", "ok"
+}
+
 func cornerHists() []*Hist {
 	all := []CertSpec{{"issued", 0}, {"unknown", 0}, {"carried", -7200}, {"carried", -3601}, {"carried", -3600}, {"carried", -3599}, {"carried", -1800}, {"carried", 3600},
 		{"stored", -90000}, {"stored", -3601}, {"stored", -3599}, {"stored", 1800}}
 	var ops []Op
 	for i := range all {
-		ops = append(ops, Op{"rev", i})
+		ops = append(ops, Op{"rev", i, 0})
 	}
-	ops2 := append(append([]Op{}, ops...), Op{"gen", 0}, Op{"rev", 0}, Op{"restart", 0}, Op{"rev", 3}, Op{"gen", 0}, Op{"restart", 0}, Op{"restart", 0}, Op{"gen", 0})
+	ops2 := append(append([]Op{}, ops...), Op{"gen", 0, 0}, Op{"rev", 0, 0}, Op{"restart", 0, 0}, Op{"rev", 3, 0}, Op{"gen", 0, 0}, Op{"restart", 0, 0}, Op{"restart", 0, 0}, Op{"gen", 0, 0})
+	// failing generations: each storage call of the critical section in turn, then a clean one; a revocation whose regeneration fails
+	failing := []Op{{"gen", 0, 2}, {"gen", 0, 0}, {"gen", 0, 3}, {"rev", 0, 4}, {"gen", 0, 4}, {"rev", 0, 0}, {"rev", 1, 3}, {"gen", 0, 0}, {"restart", 0, 0}, {"rev", 2, 2}, {"gen", 0, 0}}
 	return []*Hist{
 		{GOR: true, Cache: 600, Certs: all, Ops: ops2},
 		{GOR: false, Cache: 86400, Certs: all, Ops: ops2},
-		{GOR: true, Cache: 1, Certs: all[:2], Ops: []Op{{"gen", 0}, {"gen", 0}, {"restart", 0}, {"rev", 0}, {"rev", 1}, {"rev", 1}}},
+		{GOR: true, Cache: 1, Certs: all[:2], Ops: []Op{{"gen", 0, 0}, {"gen", 0, 0}, {"restart", 0, 0}, {"rev", 0, 0}, {"rev", 1, 0}, {"rev", 1, 0}}},
+		{GOR: true, Cache: 600, Certs: all[:3], Ops: failing},
+		{GOR: false, Cache: 600, Certs: all[:3], Ops: failing},
 	}
 }
 
@@ -658,11 +803,19 @@ func genHist(r *c.Rng) *Hist {
 	for i := 0; i < n; i++ {
 		switch r.Intn(8) {
 		case 0:
-			h.Ops = append(h.Ops, Op{"restart", 0})
+			h.Ops = append(h.Ops, Op{"restart", 0, 0})
 		case 1, 2:
-			h.Ops = append(h.Ops, Op{"gen", 0})
+			f := 0
+			if r.Chance(1, 4) {
+				f = 2 + r.Intn(3)
+			}
+			h.Ops = append(h.Ops, Op{"gen", 0, f})
 		default:
-			h.Ops = append(h.Ops, Op{"rev", r.Intn(nc)})
+			f := 0
+			if r.Chance(1, 8) {
+				f = 2 + r.Intn(3)
+			}
+			h.Ops = append(h.Ops, Op{"rev", r.Intn(nc), f})
 		}
 	}
 	return h
@@ -687,6 +840,8 @@ func runCase(o *c.Out, k *Case) {
 			in, impl, want = runRace(k.Race)
 		case k.Sched != nil:
 			in, impl, want = runSched(k.Sched)
+		case k.Reload != nil:
+			in, impl, want = runReload(k.Reload)
 		}
 	}()
 	if in == "" {
@@ -703,7 +858,7 @@ func main() {
 	n := flag.Int("n", 100, "number of generated cases")
 	out := flag.String("out", "", "output file")
 	replay := flag.String("replay", "", "file of lines with a case=x<hex json> field to re-run")
-	stage := flag.String("stage", "hist", "hist | sched | race")
+	stage := flag.String("stage", "hist", "hist | sched | reload | race")
 	flag.Parse()
 	o, err := c.NewOut(*out)
 	if err != nil {
@@ -750,6 +905,18 @@ func main() {
 		for i := 0; i < *n; i++ {
 			rr := r.Fork()
 			runCase(o, &Case{Race: &Race{GOR: !rr.Chance(1, 3), Revokers: 1 + rr.Intn(8), Gens: rr.Intn(4), Fetchers: rr.Intn(3)}})
+		}
+	case "reload":
+		log.SetOutput(io.Discard) // the generator goroutines log every tick
+		for i := 0; i < *n; i++ {
+			rr := r.Fork()
+			d := []int{60, 600, 3600, 86400}
+			d1 := c.Pick(rr, d)
+			d2 := c.Pick(rr, d)
+			for d2 == d1 {
+				d2 = c.Pick(rr, d)
+			}
+			runCase(o, &Case{Reload: &Reload{D1: d1, D2: d2, GOR: i%2 == 0}})
 		}
 	case "sched":
 		parks := []string{"after-list", "before-getcrl", "before-storecrl"}
